@@ -103,7 +103,7 @@ let () = run_lines (fun f ->
       match params ne nx er win (n_of_int slip_i) (n_of_dec size) (n_of_int 24) (n_of_int 56) with
       | Stdlib.Error e -> e
       | Stdlib.Ok p ->
-        let c = mk_ctx kind edns (Rrl.V4 (n_of_dec "3221226061")) Rrl.Udp in
+        let c = mk_ctx kind edns (Rrl.V4 (Stdlib.List.map n_of_int [192; 0; 2; 77])) Rrl.Udp in
         let a = if release then Rrl.OldWrapping else Rrl.Fixed in
         (match Rrl.run_history_gen hname hkey a p (Rrl.rrl_new p t0) c hist with
          | Res.Ok (_, cs) -> "ok " ^ String.concat "" (Stdlib.List.map (letter slip_i) cs)
